@@ -36,6 +36,7 @@ func runC07(c *Ctx) {
 	L.Floor("full-scan", 2, "site loop and sequence loop of the gap-site selection")
 	L.Trusts("IEEE-754 comparison semantics: every ordered comparison with NaN is false, != is true")
 	c.checkSelectedSitesOnly("selected-sites-only")
+	c.checkArgNameOrder("arg-name-order", "distance/dna", "cmd")
 }
 
 // ---------------------------------------------------------------------------
